@@ -93,6 +93,15 @@ _Cell = collections.namedtuple('_Cell', 'x y z')
 def check_shape(case):
     reset_library()
     kind, dims = case['kind'], case['dims']
+    if sum(dims) % 3 == 0 or case.get('faults'):
+        # an EARLIER world of the very same shape whose owner edited its position table in place (and dropped the world)
+        ghost = mk(new_model(seed=9), kind, dims, case.get('flag', 'default'))
+        ncell = len(ghost.cells)
+        ghost.cells.at[0, 'pos'] = (7, 7, 7)
+        if ncell > 1:
+            a_, b_ = ghost.cells.at[ncell - 1, 'pos'], ghost.cells.at[ncell // 2, 'pos']
+            ghost.cells.at[ncell - 1, 'pos'], ghost.cells.at[ncell // 2, 'pos'] = b_, a_
+        del ghost
     model = new_model(seed=1)
     world = mk(model, kind, dims, case.get('flag', 'default'))
     # other grid worlds alive in the same process, built after this one and queried in between
@@ -200,17 +209,44 @@ def check_shape(case):
                                     got = world.get_neighbours(cpos, radius=r, incl_center=incl, ret_type=rt,
                                                                mode=metric)
                                 exp = exp_i if ret == 'int' else exp_t
-                                if entry == 'specific' and fname in ('id', 'pc0') and isinstance(got, list):
+                                if fname in ('id', 'pc0') and isinstance(got, list):
                                     # the caller may do what it likes with the answer: ask again afterwards
                                     got.reverse()
                                     got.append('junk')
-                                    got = fn(cpos, r, incl, rt)
+                                    if entry == 'specific':
+                                        got = fn(cpos, r, incl, rt)
+                                    elif entry == 'generic_positional':
+                                        got = world.get_neighbours(cpos, r, incl, rt, metric)
+                                    else:
+                                        got = world.get_neighbours(cpos, radius=r, incl_center=incl, ret_type=rt, mode=metric)
                                 if not isinstance(got, list) or [_n(v) for v in got] != exp:
                                     raise Violation(
                                         f'{metric} neighbourhood of cell {centre} (given as {fname}) radius {r_name} '
                                         f'incl_center={incl} ret_type={ret} via {entry} entry point on shape {dims}',
                                         expected=exp, observed=got if isinstance(got, list) else repr(got))
     return calls, (kind, tuple(dims), len(balls))
+
+
+def large_unbounded_case(case):
+    """A world of 65536 cells and more, the centre given as a cell id, radii up to the largest machine integers: the
+    neighbourhood is the whole grid (minus the centre)."""
+    reset_library()
+    world = mk(new_model(seed=1), case['kind'], case['dims'])
+    d3 = list(case['dims']) + [0] * (3 - len(case['dims']))
+    n = max(d3[0], 1) * max(d3[1], 1) * max(d3[2], 1)
+    q = 0
+    for cid in (0, n // 2 + 7, n - 1):
+        for r in (sys.maxsize, 2 ** 63, 2 ** 40):
+            for incl in (False, True):
+                got = world.get_moore_neighbours(cid, r, incl, int)
+                q += 1
+                want = n if incl else n - 1
+                if not isinstance(got, list) or len(got) != want or got[0] != (0 if (incl or cid != 0) else 1) or \
+                        got[-1] != (n - 1 if (incl or cid != n - 1) else n - 2) or (not incl and cid in (got[cid - 1:cid + 1])):
+                    raise Violation(f'moore neighbourhood of cell id {cid} radius {r} incl_center={incl} on shape {case["dims"]} '
+                                    f'({n} cells): the whole grid is within reach', expected=want,
+                                    observed=len(got) if isinstance(got, list) else repr(got))
+    return q
 
 
 def _n(v):
@@ -360,6 +396,14 @@ def run(ctx):
     par.pmap(ctx, chunk_fn, [[c] for c in cases], procs=ctx.procs)
     for c in (cases[0], cases[len(cases) // 2], cases[-1]):
         ctx.sample(c)
+    if not ctx.small and not ctx.violations:
+        for case in ({'leg': 'large_unbounded', 'kind': 'grid', 'dims': [260, 256]},
+                     {'leg': 'large_unbounded', 'kind': 'line', 'dims': [70000]}):
+            ctx.traces += 1
+            try:
+                ctx.transitions += hbfs._guard(large_unbounded_case, case)
+            except Violation as v:
+                ctx.report(case, v)
     ctx.leg('shapes', shapes=len(cases))
     if not ctx.violations and not ctx.small:
         pairs = [(0, 1), (1, 0), (2, 3), (3, 2), (4, 5), (0, 0), (1, 5), (4, 2)]
@@ -374,5 +418,8 @@ def run(ctx):
 def replay(case):
     if case['leg'] == 'two_callers':
         hbfs._guard(two_callers_case, case)
+        return
+    if case['leg'] == 'large_unbounded':
+        hbfs._guard(large_unbounded_case, case)
         return
     hbfs._guard(check_shape, case)
